@@ -1,5 +1,5 @@
 (* C10 -- Handling the same ClusterCIDR again has no additional effect. *)
-From NIPAM Require Import Sys Alloc_proofs Inv_proofs.
+From NIPAM Require Import Sys Alloc_proofs Inv_proofs World_proofs Path_proofs Uniq_proofs.
 Open Scope N_scope.
 
 (* mapping is idempotent per name: whenever an entry of that name is already filed under the selector,
@@ -57,3 +57,23 @@ Proof.
   cbn. reflexivity.
 Qed.
 Print Assumptions C10_world_second_handling_is_noop.
+
+(* for the closed loop: in every world reachable by well-formed operations -- any subset of the ClusterCIDR writes failing
+   any number of times, stale and duplicate notifications, the start-up listing followed by the same objects arriving as
+   notifications, crashes and restarts -- every selector key occurs once in the controller's map and, under it, every
+   ClusterCIDR name occurs once: a ClusterCIDR contributes exactly one entry (one pool per family) or none *)
+Theorem C10_one_entry_per_clustercidr_in_every_history :
+  forall po lab ops, Forall wf_op ops ->
+  forall m, w_ctl (run po lab init_world ops) = Some m ->
+  NoDup (map fst m) /\ forall k l, In (k, l) m -> NoDup (map cc_name l).
+Proof. intros po lab ops H m Em. exact (one_entry_per_clustercidr_in_every_history po lab ops H m Em). Qed.
+Print Assumptions C10_one_entry_per_clustercidr_in_every_history.
+
+(* once the deletion has completed it contributes none: a deletion work item that succeeds leaves no entry of that name
+   under the selector that is not terminating -- and with one entry per name, the terminating one was removed when it had
+   no associated node (delete_cluster_cidr); stated here as: whatever remains under that name is terminating *)
+Theorem C10_after_deletion_nothing_allocatable_remains :
+  forall m o out m' r fx k, NU m -> KU m -> o_selkey o = Some k ->
+  reconcile_delete m o out = (m', r, fx) -> all_term_at m' k (o_name o).
+Proof. exact reconcile_delete_marks_terminating. Qed.
+Print Assumptions C10_after_deletion_nothing_allocatable_remains.
